@@ -107,6 +107,7 @@ type ContractSet struct {
 	NonNilBoxed  [][2]string
 	Frames       []*FrameSpec
 	Guarded      []*FrameSpec
+	Commutes     []*FrameSpec
 	Errors  []string
 }
 
@@ -378,6 +379,16 @@ func (cs *ContractSet) parseFile(fset *token.FileSet, f *ast.File, pkgPath, file
 			case "nonnil-elems":
 				// element type invariant: slices of this pointer type never hold nil in bounds
 				cs.NonNil = append(cs.NonNil, [2]string{pkgPath, strings.TrimSpace(rest)})
+			case "commute":
+				// commute <func> loop <n>: <justification>   (annotation for a flagged map-range loop)
+				i := strings.Index(rest, ":")
+				w := strings.Fields(rest[:max0(i)])
+				if i < 0 || len(w) < 3 || w[len(w)-2] != "loop" {
+					errf(l.line, "commute: want <func> loop <n>: <justification>")
+					continue
+				}
+				fn := strings.Join(w[:len(w)-2], " ")
+				cs.Commutes = append(cs.Commutes, &FrameSpec{Kind: word, Pkg: pkgPath, Text: strings.TrimSpace(rest[i+1:]), Fields: []string{shortPkgName(pkgPath) + "." + fn, w[len(w)-1]}, Line: l.line, File: fileName})
 			case "guarded":
 				// guarded T.f by m : map field f of T may only be read with mutex field m held (R or W), written with W
 				var props []string
@@ -538,6 +549,24 @@ func (cs *ContractSet) parseFile(fset *token.FileSet, f *ast.File, pkgPath, file
 		}
 	}
 	finish()
+}
+
+func max0(i int) int {
+	if i < 0 {
+		return 0
+	}
+	return i
+}
+
+func shortPkgName(p string) string {
+	const mod = "github.com/buildbuildio/pebbles"
+	if p == mod {
+		return "pebbles"
+	}
+	if strings.HasPrefix(p, mod+"/") {
+		return p[len(mod)+1:]
+	}
+	return p
 }
 
 func cutWord(s string) (string, string) {
